@@ -25,7 +25,7 @@ RULE = (
     "root has exactly one mosromgrmeta child holding an element canon-equal to the message's "
     "roDelete element, outside roCreate; every later `ro += m` raises MosCompletedMergeError and "
     "leaves str(ro) unchanged; MosFile.from_string(str(ro)) is exactly RunningOrder, completed, with "
-    "the same serialisation, and refuses messages too; strict collection merge raises "
+    "the same serialisation, and refuses messages too; `mosromgr detect` prints '(completed)' for the completed document and not for the open one; strict collection merge raises "
     "MosCompletedMergeError at the first message after the roDelete, non-strict finishes with the "
     "state at completion and one MosMergeNonStrictWarning per later message; the same when the completed running order is written out and given to a collection together with the late messages; one roDelete in five names another (or a blank) roID and is merged directly only.  Non-trivial = >= 1 "
     "effective merge before the roDelete and >= 3 distinct message classes after it.")
@@ -40,6 +40,27 @@ def _merge(ro, text):
         return None
     except Exception as e:
         return e
+
+
+def _cli_detect(doc):
+    """stdout of `mosromgr detect -f <file holding doc>` (None if the command could not be run)."""
+    import contextlib
+    import io
+    import os
+    from mosromgr.cli import main
+    d = env.ensure_dir(os.path.join(env.WORK_DIR, f'c07-{os.getpid()}'))
+    path = os.path.join(d, 'ro.mos.xml')
+    with open(path, 'w', encoding='utf-8') as f:
+        f.write(doc)
+    out, err = io.StringIO(), io.StringIO()
+    try:
+        with contextlib.redirect_stdout(out), contextlib.redirect_stderr(err):
+            main(['detect', '-f', path])
+    except BaseException as e:
+        return f'{type(e).__name__} escaped'
+    finally:
+        os.unlink(path)
+    return out.getvalue().replace(path, '<file>').strip()
 
 
 def judge_case(case):
@@ -68,6 +89,7 @@ def judge_case(case):
         rt = MosFile.from_string(str(ro))
         if type(rt) is not RunningOrder or rt.completed:
             fail('roundtrip-of-open-ro', f'open running order reads back as {type(rt).__name__} completed={rt.completed}')
+        open_text = str(ro)
         content_before = canon(ET.fromstring(str(ro)).find('roCreate'))
         inside_before = len(list(ET.fromstring(str(ro)).find('roCreate').iter('mosromgrmeta')))
         env_before = [canon(c) for c in ET.fromstring(str(ro)) if c.tag != 'roCreate']
@@ -95,6 +117,15 @@ def judge_case(case):
             rt = None
         elif not rt.completed or str(rt) != done:
             fail('completed-flag-lost-in-roundtrip', f'read back: completed={rt.completed}, same text={str(rt) == done}')
+        # what `mosromgr detect` says about the two documents: '(completed)' exactly for the completed one
+        for label, doc, want in (('open', open_text, False), ('completed', done, True)):
+            said = _cli_detect(doc)
+            if said is None:
+                continue
+            if ('(completed)' in said) != want or 'RunningOrder' not in said:
+                fail(f'cli-detect|{label}-running-order-reported-wrongly',
+                     f'`mosromgr detect` on the {label} running order prints {said!r}',
+                     'RunningOrder (completed)' if want else 'RunningOrder', said)
         for text in case['after']:
             kind = type(MosFile.from_string(text)).__name__
             for name, target in (('live', ro), ('roundtrip', rt)):
